@@ -9,21 +9,27 @@
 EXTENDS HpkeProps, Json
 
 CONSTANTS AeadC,        \* AEAD code point of this run (1, 2, 3 or 65535)
+          KdfC,         \* KDF code point of this run
           Starts,       \* "boundary" | "zero": which start positions Init offers
           Menu,         \* "none" | "small" | "full": what the adversary may deliver
           BnKind,       \* base nonce of s / r: "leaf" (opaque) or a literal pattern "zeros" | "ones" | "alt"
+          ExpMenu,      \* "few" | "lens" | "sweep": which (exporter context, length) pairs are offered
+          SweepFrom, SweepTo,
           LenVar,       \* rotates the table of plaintext / aad lengths
           HistLen,      \* print behaviours when hist has this many steps (generation runs)
           Emit          \* TRUE: print every distinct (state, last call) as JSON
 
-TheSuite == <<KEM_X25519, KDF_SHA256, AeadC>>
+TheSuite == <<KEM_X25519, KdfC, AeadC>>
+NhC == Nh(KdfHash(KdfC))
+\* deviation D3: the export-only "AEAD" of the library has a 128-byte nonce that nothing ever observes
+NnRaw == IF AeadC = AEAD_EXPORT THEN 128 ELSE Nn(AeadC)
 \* literal base nonces make ComputeNonce fully concrete inside TLA+ (XOR is then computed here, and
 \* all-ones / alternating bits tell XOR from OR and ADD)
-BaseNonce(n) == CASE BnKind = "leaf"  -> Leaf("bn" \o n, Nn(AeadC))
+BaseNonce(n) == CASE BnKind = "leaf"  -> Leaf("bn" \o n, NnRaw)
                   [] BnKind = "zeros" -> Lit(Zeros(Nn(AeadC)))
                   [] BnKind = "ones"  -> Lit(Fill(255, Nn(AeadC)))
                   [] BnKind = "alt"   -> Lit([i \in 1..Nn(AeadC) |-> IF i % 2 = 0 THEN 85 ELSE 170])
-Km(n) == [key |-> Leaf("key" \o n, Nk(AeadC)), bn |-> BaseNonce(n), exp |-> Leaf("exp" \o n, 32)]
+Km(n) == [key |-> Leaf("key" \o n, Nk(AeadC)), bn |-> BaseNonce(n), exp |-> Leaf("exp" \o n, NhC)]
 RawS == [c |-> "s", role |-> "S", suite |-> TheSuite] @@ Km("1")
 RawR == [c |-> "r", role |-> "R", suite |-> TheSuite] @@ Km("1")
 RawX == [c |-> "x", role |-> "S", suite |-> TheSuite] @@ Km("2")
@@ -100,8 +106,13 @@ MC_DeliveryMenu(snt) ==
       [] Menu = "integrity" -> IntegrityMenu(snt["s"])
       [] Menu = "inorder" -> {D("msg", "s", i, 0, 0) : i \in 1..MaxSeals}
 
-MC_ExportMenu == {<<<<>>, 32>>, <<Leaf("ectx", 7), 32>>, <<Leaf("ectx", 7), 0>>,
-                  <<<<>>, 8160>>, <<<<>>, 8161>>}
+\* export lengths around every interesting bound: 0, 1, Nh, 255*Nh (the HKDF limit), 2^16
+ExportLens == {0, 1, 16, NhC - 1, NhC, NhC + 1, 255 * NhC - 1, 255 * NhC, 255 * NhC + 1, 65535, 65536, 70000}
+MC_ExportMenu ==
+    CASE ExpMenu = "few"  -> {<<<<>>, 32>>, <<Leaf("ectx", 7), 32>>, <<Leaf("ectx", 7), 0>>, <<<<>>, 255 * NhC>>, <<<<>>, 255 * NhC + 1>>}
+      [] ExpMenu = "lens" -> {<<Leaf("ectx", 7), L>> : L \in ExportLens}
+                             \cup {<<<<>>, 32>>, <<Lit(<<0>>), 32>>, <<Leaf("ectxlong", 300), 32>>, <<Leaf("ectx1", 1), 32>>}
+      [] ExpMenu = "sweep" -> {<<Leaf("ectx", 7), L>> : L \in SweepFrom..SweepTo}
 
 NoSetups(x) == {}
 NoSetups2(x, y) == {}
